@@ -40,6 +40,7 @@ USES = {
     "and": dict(t="{H} and {A}", expr=1, embed=1, cmd=0, argv=0),
     "or": dict(t="{H} or {A}", expr=1, embed=1, cmd=0, argv=0),
     "not": dict(t="not {H}", expr=1, embed=1, cmd=0, argv=0),
+    "neg": dict(t="-{H}", expr=1, embed=1, cmd=0, argv=0),
     "and-flags": dict(t="{H} -{A} and {B} -{A}", expr=1, embed=1, cmd=0, argv=0),
     "or-not": dict(t="{H} or not {A}", expr=1, embed=1, cmd=0, argv=0),
     "gt": dict(t="{H} > {A}", expr=1, embed=1, cmd=1, argv=0),
